@@ -101,8 +101,8 @@ def oracle(case, impl, model=None):
                 w = dict((int(t[1:3], 16) & 0x7f, int(t[3:5], 16)) for t in tw if len(t) == 5 and int(t[1:3], 16) & 0x80)
                 frf = (w[6] << 16) | (w[7] << 8) | w[8]
                 d = f * (1 << 19) - frf * 32000000
-                if not (0 <= d < 62 * (1 << 19)):
-                    return {"kind": "SX127x Frf is not within 62 Hz below the requested frequency", "freq": f, "frf": frf}
+                if abs(d) >= 62 * (1 << 19):
+                    return {"kind": "SX127x Frf is not within 62 Hz of the requested frequency", "freq": f, "frf": frf}
         elif a[0] == "power" and res.startswith("Ok"):
             p = int(a[1])
             if chip in ("sx1261", "sx1262", "stm32wl_hp", "stm32wl_lp"):
